@@ -151,3 +151,37 @@ def uninstall(name):
     parts = name.split('.')
     for i in range(len(parts), 0, -1):
         sys.modules.pop('.'.join(parts[:i]), None)
+
+
+REGEN = r"""
+import hashlib, json, sys
+sys.path.insert(0, sys.argv[1])
+from sourcer import Grammar
+out = []
+for d in json.load(sys.stdin):
+    try:
+        g = Grammar(d, include_source=True)
+        out.append(hashlib.sha1(g._source_code.encode()).hexdigest())
+    except Exception as x:
+        out.append('EXC:' + type(x).__name__)
+    name = getattr(g, '__name__', None)
+    if name and name != 'grammar':
+        sys.modules.pop(name, None)
+json.dump(out, sys.stdout)
+"""
+
+
+def source_hashes_in_fresh_interpreter(descs, hashseed):
+    """sha1 of the source generated for each description by a fresh interpreter started with another
+    PYTHONHASHSEED (the generated text must not depend on set / dict iteration order)"""
+    import json
+    import subprocess
+    env = dict(os.environ)
+    env['PYTHONHASHSEED'] = str(hashseed)
+    env['PYTHONDONTWRITEBYTECODE'] = '1'
+    env.pop('PYTHONPATH', None)
+    p = subprocess.run([sys.executable, '-c', REGEN, REPO], input=json.dumps(descs), capture_output=True, text=True,
+                       timeout=600, env=env)
+    if p.returncode != 0:
+        return ['SUBPROCESS-FAILED: ' + p.stderr[-200:]] * len(descs)
+    return json.loads(p.stdout)
